@@ -874,7 +874,7 @@ class TomographyInput(RotationImplemented):
                 DeprecationWarning,
             )
             tilt_model = single_axis(tilt_range)
-        if tilt is None:
+        elif tilt is None:
             tilt_model = no_wedge()
         elif isinstance(tilt, TiltSeriesModel):
             tilt_model = tilt
